@@ -120,6 +120,9 @@ class ErrProp:
                 break
         if node is None:
             return False, "call not located in CFG"
+        if node.kind in ("cond", "switch"):
+            # `if ((ret = f()) != 0)`: the assignment is an operand of the decision itself
+            return True, "assigned and tested in the same condition"
         seen = set()
         st = [s for s, _ in node.succ]
         while st:
